@@ -64,9 +64,18 @@ func (q *QueueImpl) Next() (core.InfoHash, bool) {
 	return h, true
 }
 
-// Add adds a torrent to the back of the queue. Behavior is undefined if called
-// twice on the same torrent.
+// Add adds a torrent to the back of the queue. No-ops if the torrent is already
+// in the queue, either waiting to announce or with a pending announce request,
+// such that a torrent never occupies more than one slot.
 func (q *QueueImpl) Add(h core.InfoHash) {
+	if q.pending[h] {
+		return
+	}
+	for e := q.readyQueue.Front(); e != nil; e = e.Next() {
+		if val, ok := e.Value.(core.InfoHash); ok && val == h {
+			return
+		}
+	}
 	q.readyQueue.PushBack(h)
 }
 
